@@ -24,6 +24,7 @@ while i < len(args):
     else:
         i += 1
 
+HEAD = subprocess.run(['git', '-C', '/repo', 'rev-parse', '--short', 'HEAD'], capture_output=True, text=True).stdout.strip()
 jobs = []
 for p in sorted(glob.glob(os.path.join(ROOT, 'mutants', '*', '*.diff'))):
     pid = os.path.basename(os.path.dirname(p))
@@ -49,6 +50,16 @@ def run(job):
     if 'patch does not apply' in out:
         res['note'] = 'patch does not apply on the current HEAD'
     print(f"{pid} {kind} {name}: exit={code} {sigs[:1]} ({res['wall_s']} s)", flush=True)
+    if kind == 'seeded':
+        # keep the stored meta current: what the check said when the seed was first confirmed stays in
+        # check_result, the latest sweep result goes to check_result_latest
+        mp = os.path.join(os.path.dirname(patch), 'meta.json')
+        try:
+            m = json.load(open(mp))
+            m['check_result_latest'] = {'exit': f'exit={code}', 'first_violations': sigs[:3], 'repo_head': HEAD}
+            json.dump(m, open(mp, 'w'), indent=1)
+        except Exception as e:
+            print('meta update failed', e)
     return res
 
 
